@@ -35,8 +35,8 @@ CROPS = [(w, i) for i, w in enumerate(WIDTHS)] + [(32, 40), (500, 41), (36, 50),
 # it could not crop - it has the same bytes as the blank uint8 crop of 8 x H pixels next to it (seed 60, 64 px)
 MODES = ['sparse', 'dense', 'tight', 'nologits']
 DEPTH3_QUICK = [0, 4, 5, 7, 8, 9, 10, 11, 12, 14]      # lists of 3 in the quick tier use this sub-alphabet
-BOUNDS = {'quick': dict(depth=3, bs=[1, 2, 3, 16], bs3=[1, 16], ctx3=[0], deep_alphabet=0),
-          'thorough': dict(depth=3, bs=list(range(1, 17)), bs3=list(range(1, 17)), ctx3=[0, 1], deep_alphabet=6)}
+BOUNDS = {'quick': dict(depth=3, bs=[1, 2, 3, 16], bs3=[1, 16], ctx3=[0], deep_alphabet=0, bsx=[2, 16], ctxx=[0]),
+          'thorough': dict(depth=3, bs=list(range(1, 17)), bs3=list(range(1, 17)), ctx3=[0, 1], deep_alphabet=6, bsx=list(range(1, 17)), ctxx=[0, 1])}
 BOUNDS['replay'] = BOUNDS['quick']
 STUBS = [(0,), (1,)]                    # ctx = 0 (strictly local) / 1 (3-frame receptive field)
 _REF = {}
@@ -83,6 +83,20 @@ def run(engine, lines, mode):
 
 def todense(x):
     return None if x is None else (np.asarray(x.toarray()) if hasattr(x, 'toarray') else np.asarray(x))
+
+
+def greedy_ctc(L):
+    """reference decoder (independent of the library's): arg-max class of every frame, repeats collapsed, blanks dropped - each line on its
+    own, starting from 'no previous frame'.  None if some frame has no clear arg-max (tie, NaN): no verdict then"""
+    if L.shape[0] == 0:
+        return ''
+    with np.errstate(invalid='ignore'):
+        srt = np.sort(L, axis=1)
+        if not np.all(srt[:, -1] - srt[:, -2] > 1e-3):
+            return None
+    best = np.argmax(L, axis=1)
+    prev = np.concatenate(([C - 1], best[:-1]))
+    return ''.join(CHARS[c] for c in best[(best != prev) & (best != C - 1)])
 
 
 def reference(i, bs, ctx, mode):
@@ -139,7 +153,10 @@ def run_shard(shard, ctx, tier):
             lists = (list(r) for r in itertools.product(range(len(CROPS)), repeat=n))
         for lst in lists:
             for mode in range(len(MODES)):
-                guarded_check(mod, {'lines': lst, 'bs': shard['bs'], 'ctx': shard['ctx'], 'mode': mode}, ctx)
+                case = {'lines': lst, 'bs': shard['bs'], 'ctx': shard['ctx'], 'mode': mode}
+                if shard['bs'] in b['bsx'] and shard['ctx'] in b['ctxx']:
+                    case['x'] = 1           # with the sub-sweeps 'mode changes on one engine' and 'every fault point of the call'
+                guarded_check(mod, case, ctx)
 
 
 def compare(pos, i, got, ref, mode, w, bs, ctx_, K, desc, sub, ctx, padding_is_blank=True):
@@ -173,6 +190,18 @@ def compare(pos, i, got, ref, mode, w, bs, ctx_, K, desc, sub, ctx, padding_is_b
         ctx.violation('own-logits-at-own-position', f'{K}/logits',
                       f'{desc}: position {pos} (crop {CROPS[i]}): logits differ from those of the line recognised alone', sub)
         return False
+    if mode in ('dense', 'sparse'):
+        # the returned logits are the whole buffer row of the line, the transcription is its greedy CTC decoding: frame 0 has no predecessor
+        # (in particular not the last frame of the line before it in the batch).  Sparse storage: an entry that was pruned (posterior < 1e-4,
+        # stored as 0; the stubs never output exactly 0) cannot be the arg-max of its frame
+        want_t = greedy_ctc(lg if mode == 'dense' else np.where(lg == 0, -np.inf, lg))
+        if want_t is not None:
+            ctx.tag('transcription-decoded-again-from-the-returned-logits')
+            if t != want_t:
+                ctx.violation('own-transcription-at-own-position', f'{K}/transcription-vs-own-logits',
+                              f'{desc}: position {pos} (crop {CROPS[i]}): transcription {t!r}, but the greedy CTC decoding of the logits returned for '
+                              f'this line (which equal those of the line recognised alone) is {want_t!r}', sub)
+                return False
     if list(co) != list(rco):
         ctx.violation('own-window-at-own-position', f'{K}/window', f'{desc}: position {pos}: window {co} vs alone {rco}', sub)
         return False
@@ -268,6 +297,23 @@ def check_case(case, ctx):
         if len(set(widths)) < len(widths):
             ctx.tag('equal-width-lines')
     ctx.outcome(tuple(out1[0]))
+    # history over the mode alphabet: the SAME engine (already used in mode m, twice for lists of 2) recognises the list again in every other
+    # mode, one after the other - all ordered pairs (mode of an earlier call, mode of a later call).  What a call returns may depend on its own
+    # flags only, not on the flags of the calls before it
+    if case.get('x') and 1 <= len(lst) <= 2:
+        before = [mode] * min(len(lst), 2)
+        for m2 in MODES:
+            if m2 == mode:
+                continue
+            out5 = run(eng, imgs, m2)
+            ctx.executed()
+            for pos, i in enumerate(lst):
+                if not compare(pos, i, (out5[0][pos], out5[1][pos], out5[2][pos]), reference(i, bs, cx, m2), m2, CROPS[i][0], bs, cx,
+                               f'{ID}/{m2}/after-a-{mode}-call-on-the-same-engine',
+                               desc + f' (then the same list in mode {m2} on the same engine, which had been called in modes {before} before)', case, ctx):
+                    return
+            before.append(m2)
+            ctx.tag('mode-changed-between-calls-on-one-engine')
     # environment fault: the network call fails ONCE with an out-of-memory error on a batch of several lines (what a GPU does under pressure).
     # Whether process_lines gives up or recovers is its business; the NEXT call on the same engine must give every line its own result again
     if lst and len(lst) <= 3 and bs >= 2 and mode in ('sparse', 'dense') and cx == 0:
@@ -294,24 +340,72 @@ def check_case(case, ctx):
                                desc + f' (the call after one - on two narrow lines - in which the network raised out-of-memory once)', case, ctx):
                     return
             ctx.tag('call-after-an-injected-out-of-memory-error')
+    # the same environment answer at EVERY fault point of the call on the list itself (mc/faults.py: the k-th network call of the call fails
+    # once, k = 0, 1, ...; fresh engine for every k).  The call may raise (any exception); a value it RETURNS (a recovery: retry, smaller
+    # batches) is a result like any other and must give every line its own result; so must the next call on that engine
+    if case.get('x') and lst and len(lst) <= 3 and bs >= 2 and mode in ('sparse', 'dense'):
+        from mc.faults import Injector
+        inj = Injector([], lambda name: RuntimeError('CUDA out of memory. Tried to allocate 2.00 GiB (injected by the harness)'))
+        k, n_calls = 0, 1
+        while k < n_calls:
+            fe = make_engine(bs, cx)
+            inj.targets = [(fe, 'run_ocr')]
+            with inj.active(k):
+                try:
+                    outf = run(fe, imgs, mode)
+                except Exception:  # noqa - reporting the failure is permitted
+                    outf = None
+                site = inj.fired
+            ctx.executed()
+            if site is None:
+                break                   # this run made fewer network calls than the last one: nothing was injected
+            ctx.tag('network-failure-injected-at-every-network-call-of-a-call')
+            fdesc = desc + f' (network call {k} of this call raised out-of-memory once)'
+            if outf is not None:
+                ctx.tag('call-with-a-failed-network-call-returned-a-value')
+                if any(len(o) != len(lst) for o in outf):
+                    ctx.violation('own-transcription-at-own-position', f'{K}/call-in-which-the-network-failed-once/result-count',
+                                  f'{fdesc}: {[len(o) for o in outf]} transcriptions / logits / windows for {len(lst)} lines')
+                    return
+                for pos, i in enumerate(lst):
+                    if not compare(pos, i, (outf[0][pos], outf[1][pos], outf[2][pos]), reference(i, bs, cx, mode), mode, CROPS[i][0], bs, cx,
+                                   f'{K}/call-in-which-the-network-failed-once', fdesc + ': the call returned a value', case, ctx):
+                        return
+            with inj.active(None):
+                outn = run(fe, imgs, mode)
+                n_calls = inj.count
+            ctx.executed()
+            for pos, i in enumerate(lst):
+                if not compare(pos, i, (outn[0][pos], outn[1][pos], outn[2][pos]), reference(i, bs, cx, mode), mode, CROPS[i][0], bs, cx,
+                               f'{K}/call-after-an-out-of-memory-failure',
+                               fdesc + f': the next call on the same engine, same list ({"a value had been returned" if outf is not None else "the failure had been reported"})', case, ctx):
+                    return
+            k += 1
     # engines with a writer/embedding id: changing engine.embed_id between two calls (as user_scripts/select_embed_id.py does) must
     # take effect for every line of the next call, whatever batches were run before
-    if mode == 'sparse' and cx == 0 and len(lst) >= 2 and bs in (1, 16):
+    # The stub favours class embed_id by a constant, so that the 32 px of black padding on either side of a line (and the frames up to the batch
+    # width) read as the CHARACTER embed_id, not as blank: the first / last frame of a buffer row then carries a character, and a line's
+    # transcription is still the greedy decoding of its own row.  Lists of 1-2: the padding character runs through the whole alphabet c, b, a
+    if mode == 'sparse' and cx == 0 and len(lst) >= 1 and bs in (1, 16):
         from mc import stubs
         ee = stubs.make_embed_engine(C, CHARS, 0, line_px_height=H, batch_size=bs)
         run(ee, imgs[:2], mode)
-        ee.embed_id = 2
-        out3 = run(ee, imgs, mode)
-        ctx.executed(2)
-        for pos, i in enumerate(lst):
-            key = ('embed', i, bs if CROPS[i][0] + 31 + 64 > 480 else 0)
-            if key not in _REF:
-                t, lg, co = run(stubs.make_embed_engine(C, CHARS, 2, line_px_height=H, batch_size=bs), [crop(i)], mode)
-                _REF[key] = (t[0], todense(lg[0]), co[0])
-            if not compare(pos, i, (out3[0][pos], out3[1][pos], out3[2][pos]), _REF[key], mode, CROPS[i][0], bs, cx, f'{K}/after-embed-id-change',
-                           desc + ' (embedding engine: 2 lines with embed_id 0, then the whole list with embed_id 2)', case, ctx,
-                           padding_is_blank=False):
-                return
+        ctx.executed()
+        for eid in ((2, 1, 0) if len(lst) <= 2 else (2,)):
+            ee.embed_id = eid
+            out3 = run(ee, imgs, mode)
+            ctx.executed()
+            for pos, i in enumerate(lst):
+                key = ('embed', i, bs if CROPS[i][0] + 31 + 64 > 480 else 0) + ((eid,) if eid != 2 else ())
+                if key not in _REF:
+                    t, lg, co = run(stubs.make_embed_engine(C, CHARS, eid, line_px_height=H, batch_size=bs), [crop(i)], mode)
+                    _REF[key] = (t[0], todense(lg[0]), co[0])
+                if not compare(pos, i, (out3[0][pos], out3[1][pos], out3[2][pos]), _REF[key], mode, CROPS[i][0], bs, cx, f'{K}/after-embed-id-change',
+                               desc + f' (embedding engine: 2 lines with embed_id 0, then the whole list with embed_id {", then ".join(str(e) for e in (2, 1, 0)[:(2, 1, 0).index(eid) + 1])})',
+                               case, ctx, padding_is_blank=False):
+                    return
+            if eid != 2:
+                ctx.tag('padding-reads-as-every-character-of-the-alphabet')
         ctx.tag('embedding-engine-id-changed-between-calls')
     # page level: PageOCR zips the results back onto the lines (default engine batch size)
     if mode == 'sparse' and bs == 1 and 1 <= len(lst) <= 3:
@@ -333,7 +427,7 @@ def check_case(case, ctx):
                 ref = reference(lst[pos], 8, cx, 'sparse')
                 if line.id != mk_id(pos) or line.transcription != ref[0] or line.logits is None or line.logit_coords is None or \
                         list(line.logit_coords) != list(ref[2]) or list(line.characters) != CHARS + ['​'] or \
-                        np.abs(todense(line.logits)[:ref[1].shape[0]] - ref[1][:todense(line.logits).shape[0]]).max() > 1e-5:
+                        not (np.abs(todense(line.logits)[:ref[1].shape[0]] - ref[1][:todense(line.logits).shape[0]]).max() <= 1e-5):
                     ctx.violation('own-transcription-at-own-position', f'{ID}/PageOCR/line-result-mismatch' + ('' if idmode == 'unique' else f'/{idmode}-line-ids'),
                                   f'{desc}: PageOCR.process_page put a wrong result (or none) on line {pos} (line ids {idmode}: {line.id!r}): '
                                   f'transcription {line.transcription!r}, expected {ref[0]!r}')
